@@ -331,6 +331,7 @@ pub fn run(args: &[String]) {
     let start: usize = args.get(1).map(|s| s.parse().unwrap()).unwrap_or(0);
     let names = keyname_table();
     for case in cases.iter().skip(start) {
+        crate::wd::case_begin();
         run_case(case, &names);
     }
 }
